@@ -93,8 +93,9 @@ class LoopSeq(object):
     appends (evaluated for a symbolic iteration, see TemplateEval._depth_loop); the whole list is those items for
     d = 0, 1, ... in order -- or, with ``rev``, the reverse of that."""
 
-    def __init__(self, loop, items, rev=False):
+    def __init__(self, loop, items, rev=False, origin=None):
         self.loop, self.items, self.rev = loop, list(items), rev
+        self.origin = origin if origin is not None else self      # the list of the loop this is a (possibly reversed) copy of
 
 
 class LoopCat(object):
@@ -412,7 +413,7 @@ class TemplateEval(object):
         if stored & set(self.params):
             raise fail('the body re-binds a parameter')
         before = dict((k, len(v.items)) for k, v in lists.items())
-        self._loop_guard = {'stored': stored, 'assigned': set()}
+        self._loop_guard = {'stored': stored, 'assigned': set(), 'lists': set(id(v) for v in lists.values())}
         self.env[d] = Ex(ast.Constant(value=0))
         if elem_var is not None:
             self.env[elem_var] = Ex(ast.Subscript(value=ast.Name(id=seqp, ctx=ast.Load()), slice=ast.Constant(value=0), ctx=ast.Load()))
@@ -427,13 +428,16 @@ class TemplateEval(object):
             self.env[L] = Ex(ast.Name(id='<%s after the loop>' % L, ctx=ast.Load()))
         for k_ in stored:
             self.env[k_] = Ex(ast.Name(id='<%s of the last iteration>' % k_, ctx=ast.Load()))
+        seq_of = {}         # one LoopSeq per list object: two names of one list keep naming one list
         for k, v in lists.items():
             if self.env.get(k) is not v:
                 raise fail('list %s is re-bound in the body' % k)
             if len(v.items) > before[k]:
                 if before[k]:
                     raise fail('list %s is not empty when the loop starts' % k)
-                self.env[k] = LoopSeq(st, v.items)
+                if id(v) not in seq_of:
+                    seq_of[id(v)] = LoopSeq(st, v.items)
+                self.env[k] = seq_of[id(v)]
         ps = self.fi.params()
         argmap = dict((p_, '%s[1:]' % p_ if p_ in indexed else ('%s + 1' % p_ if p_ in shifted else p_)) for p_ in ps)
         self.events.append({'kind': 'rec', 'node': st, 'argmap': argmap, 'owner': self.fi.qualname})
@@ -443,7 +447,7 @@ class TemplateEval(object):
         """``''.join(defs + tails[::-1])`` over the LoopSeqs of one depth loop -> defs(0) + <rec> + reversed(tails(0))."""
         loops = [p for p in val.parts if isinstance(p, Sym) and p.kind == 'loop']
         ok = len(val.parts) == 2 and len(loops) == 2 and not loops[0].seq.rev and loops[1].seq.rev and \
-            loops[0].seq.loop is loops[1].seq.loop and self._loop_rec is not None and loops[0].seq is not loops[1].seq
+            loops[0].seq.loop is loops[1].seq.loop and self._loop_rec is not None and loops[0].seq.origin is not loops[1].seq.origin
         if not ok:
             raise AnalysisError('%s: the strings built by the depth loop are not assembled as <heads in order> + <tails reversed> '
                                 '(the nested form of the recursive generator)' % self.fi.qualname)
@@ -551,6 +555,12 @@ class TemplateEval(object):
             return False
         cur = self.env.get(f.value.id)
         if isinstance(cur, SList):
+            g = self.root._loop_guard
+            if g is not None and id(cur) in g.get('lists', ()) and f.attr not in ('append', 'extend'):
+                # a list that lives across the iterations of a depth loop: one symbolic iteration says what is appended per
+                # iteration, not what re-ordering the whole list every time round amounts to
+                raise AnalysisError('%s: loop in a code generator: %s.%s() on a list that outlives the iteration'
+                                    % (self.root.fi.qualname, f.value.id, f.attr))
             if f.attr == 'append' and len(call.args) == 1:
                 cur.items.append(self.eval(call.args[0]))
                 return True
@@ -567,6 +577,14 @@ class TemplateEval(object):
                 cur.items.reverse()
                 return True
             raise AnalysisError('%s: list method %s.%s() outside the modelled subset' % (self.fi.qualname, f.value.id, f.attr))
+        if isinstance(cur, LoopSeq):
+            # a list a depth loop filled: ``tails.reverse()`` (in place: every name of that list sees it) is ``tails[::-1]``;
+            # anything else that could change the list after the loop is not followed
+            if f.attr == 'reverse' and not call.args and not call.keywords:
+                cur.rev = not cur.rev
+                return True
+            raise AnalysisError('%s: list method %s.%s() on a list built by the depth loop is outside the modelled subset'
+                                % (self.fi.qualname, f.value.id, f.attr))
         if isinstance(cur, SDict):
             if f.attr == 'update':
                 for a in call.args:
@@ -695,10 +713,10 @@ class TemplateEval(object):
                 return v.items[idx.value]
             if isinstance(v, LoopSeq) and isinstance(idx, ast.Slice) and idx.lower is None and idx.upper is None:
                 if idx.step is None:
-                    return LoopSeq(v.loop, v.items, v.rev)
+                    return LoopSeq(v.loop, v.items, v.rev, v.origin)
                 if isinstance(idx.step, ast.UnaryOp) and isinstance(idx.step.op, ast.USub) and isinstance(idx.step.operand, ast.Constant) \
                         and idx.step.operand.value == 1:
-                    return LoopSeq(v.loop, v.items, not v.rev)
+                    return LoopSeq(v.loop, v.items, not v.rev, v.origin)
             if isinstance(v, SList) and isinstance(idx, ast.Slice) and idx.lower is None and idx.upper is None:
                 if idx.step is None:
                     return SList(v.items, v.kind)
@@ -944,7 +962,7 @@ class TemplateEval(object):
                 if isinstance(v, SList) and f.id == 'reversed':
                     return SList(list(reversed(v.items)), v.kind)
                 if isinstance(v, LoopSeq) and f.id in ('list', 'tuple', 'iter', 'reversed'):
-                    return LoopSeq(v.loop, v.items, (not v.rev) if f.id == 'reversed' else v.rev)
+                    return LoopSeq(v.loop, v.items, (not v.rev) if f.id == 'reversed' else v.rev, v.origin)
                 if isinstance(v, Ex):
                     return self.as_coll(Ex(self.resolve(e)))
                 return Ex(self.resolve(e))
@@ -986,6 +1004,14 @@ class TemplateEval(object):
                 self.events.append({'kind': 'rec', 'node': e, 'argmap': argmap, 'owner': self.fi.qualname})
                 return Tmpl([Sym('rec', call=e, argmap=argmap)])
             callee = self.mod.functions.get(f.id)
+            if callee is None and f.id in self.mod.imports and f.id not in self.env:
+                # a helper that lives in another module of the analysed package and is imported under this name
+                try:
+                    kind_, cmod_, obj_ = self.repo.resolve(self.mod, f.id)
+                except Exception:
+                    kind_ = None
+                if kind_ == 'func' and cmod_ is not None and not cmod_.external:
+                    callee = obj_
             if callee is not None and self.depth < 3 and not any(isinstance(a, ast.Starred) for a in e.args) and \
                     not any(k.arg is None for k in e.keywords):
                 r = self._exec_callee(callee, e)
@@ -1041,7 +1067,8 @@ class TemplateEval(object):
         if isinstance(v, (LoopSeq, LoopCat)):
             if sep != '':
                 raise AnalysisError('%s: loop-built strings joined with a separator' % self.fi.qualname)
-            return Tmpl([Sym('loop', seq=q) for q in (v.seqs if isinstance(v, LoopCat) else [v])])
+            # (a snapshot: a later in-place ``.reverse()`` of the list does not change the string joined here)
+            return Tmpl([Sym('loop', seq=LoopSeq(q.loop, q.items, q.rev, q.origin)) for q in (v.seqs if isinstance(v, LoopCat) else [v])])
         if isinstance(v, SList):
             out = []
             for i, x in enumerate(v.items):
